@@ -352,6 +352,14 @@ func runC03(e *Env) {
 				e.R.Inconcl(c.ID + ": watchdog fired but the canary transfer failed too (machine stalled)")
 				return
 			}
+			// a stall that the case itself causes shows again on a fresh pair
+			// of connections; one caused by datagram loss and retransmission
+			// back-off on the loaded machine does not
+			if o2 := runC03Case(e, lp, c); !o2.Res.Hung {
+				e.R.Count("hang_not_reproduced")
+				e.R.Inconcl(fmt.Sprintf("%s: the bounded-progress rule fired once, and the same case run again on fresh connections did not stall (send_err=%q recv_err=%q)", c.ID, errS(o2.Res.SendErr), errS(o2.Res.RecvErr)))
+				return
+			}
 		}
 		what := fmt.Sprintf("fault-free transfer did not complete: send_err=%q recv_err=%q hung=%v diff=%v", errS(o.Res.SendErr), errS(o.Res.RecvErr), o.Res.Hung, o.Diff)
 		e.R.Violate(c03Key(c, o), what, c, map[string]any{"tree": o.Tree, "result": o.Res.Summary(), "goroutines": o.Res.HangDump, "output_state_when_stopped": o.StateAtStop})
